@@ -197,9 +197,12 @@ func c13Worker(sh *explore.Shard) {
 				if inv.Kind == modelgit.KRevParseGitDir {
 					continue
 				}
-				if inv.Kind == modelgit.KUnexpected {
-					sh.C.Violate(explore.Violation{Property: "C13", Class: "isolation", Msg: fmt.Sprintf("git command without the isolation prefix or outside the expected set: %q", inv.Args), Case: caseJSON(idx, nil)})
-					continue
+				if inv.Kind == modelgit.KRevParseFacts {
+					continue // repository discovery/facts: runs in the caller's environment, reads no object
+				}
+				if inv.Kind == modelgit.KUnexpected && modelgit.LooksReadOnly(inv.Args) {
+					// the model git has to learn this command; its isolation is still judged below
+					sh.C.Violate(explore.Violation{Property: "C13", Class: "HARNESS/unmodelled-git-command", Msg: fmt.Sprintf("the model git does not implement the read-only command %q (extend harness/modelgit)", inv.Args), Case: caseJSON(idx, nil)})
 				}
 				if !inv.NoRepl || inv.Graft != "/dev/null" || inv.GitDir != "/some/where/.git" {
 					sh.C.Violate(explore.Violation{Property: "C13", Class: "isolation",
@@ -213,8 +216,11 @@ func c13Worker(sh *explore.Shard) {
 }
 
 func c13Case(sh *explore.Shard, bi int, b c13Base, v c13Variant, modes []c13Mode) {
-	dir := scratch("c13")
-	defer os.RemoveAll(dir)
+	dir0 := scratch("c13")
+	defer os.RemoveAll(dir0)
+	// every path of the case contains a blank (a git dir is a path like any other)
+	dir := filepath.Join(dir0, "a b")
+	os.MkdirAll(dir, 0o755)
 	work := filepath.Join(dir, "work")
 	gd := filepath.Join(work, ".git")
 	desc := fmt.Sprintf("base %d, %s", bi, v.name)
@@ -365,6 +371,6 @@ func c13Case(sh *explore.Shard, bi int, b c13Base, v c13Variant, modes []c13Mode
 
 func init() {
 	Registry["C13"] = &Check{Level: "exploration", Worker: c13Worker, QuickBudget: 80 * time.Second, ThoroughBudget: 10 * time.Minute,
-		Rule:        "real binary + real git: 2 base repositories x {plain; every single replacement of a commit, tip commit, tree, subtree, blob, tag by an otherwise unreachable bigger/other object and by an object that is reachable in its own right, with and without GIT_NO_REPLACE_OBJECTS in the caller's environment; every single graft (add a parent, drop all parents, redirect, give the root a parent) in .git/info/grafts and in a file named by GIT_GRAFT_FILE in the caller's environment; a shallow marker; a per-worktree reference (refs/worktree/only) in the linked worktree, which only runs addressed through that worktree must see; thorough additionally replaces every reachable object in turn and grafts every commit in turn} x 9 addressing modes (top, subdirectory, inside .git, bare copy, linked worktree, GIT_DIR absolute from elsewhere, GIT_DIR relative, git -C <dir> sizer, git --git-dir=<d> sizer) x {JSON, verbose table}: stdout byte-identical across modes; numbers equal the oracle on the objects actually stored (refs/replace/* counting as ordinary references); shallow refused cleanly in every mode; plus, through fakegit's log, every git command of a run carries --no-replace-objects, GIT_GRAFT_FILE=/dev/null and the resolved GIT_DIR even when the caller's environment sets other values. non-trivial = every variant",
+		Rule:        "real binary + real git: 2 base repositories x {plain; every single replacement of a commit, tip commit, tree, subtree, blob, tag by an otherwise unreachable bigger/other object and by an object that is reachable in its own right, with and without GIT_NO_REPLACE_OBJECTS in the caller's environment; every single graft (add a parent, drop all parents, redirect, give the root a parent) in .git/info/grafts and in a file named by GIT_GRAFT_FILE in the caller's environment; a shallow marker; a per-worktree reference (refs/worktree/only) in the linked worktree, which only runs addressed through that worktree must see; thorough additionally replaces every reachable object in turn and grafts every commit in turn} x 9 addressing modes of a repository whose path contains a blank (top, subdirectory, inside .git, bare copy, linked worktree, GIT_DIR absolute from elsewhere, GIT_DIR relative, git -C <dir> sizer, git --git-dir=<d> sizer) x {JSON, verbose table}: stdout byte-identical across modes; numbers equal the oracle on the objects actually stored (refs/replace/* counting as ordinary references); shallow refused cleanly in every mode; plus, through fakegit's log, every git command of a run carries --no-replace-objects, GIT_GRAFT_FILE=/dev/null and the resolved GIT_DIR even when the caller's environment sets other values. non-trivial = every variant",
 		Assumptions: []string{"git 2.39.5; the linked worktree is created with git worktree add (detached at the root commit)"}}
 }
